@@ -1,0 +1,185 @@
+//go:build verif
+
+package scanner
+
+// Contracts for govc (/verif). Comment-only file: invisible without -tags verif.
+
+//@ inlinepkg github.com/jsightapi/jsight-schema-core/bytes
+//@ inlinepkg github.com/jsightapi/jsight-schema-core/fs
+
+//@ extern fmt.Sprintf
+//@   attr pure deterministic repeatable nopanic
+//@ extern unicode/utf8.DecodeRune
+//@   attr pure deterministic repeatable nopanic
+
+//@ pred isPlain(f stepFunc) := !isComment(f) && !isParam(f) && !isBodyPending(f) && f != nil
+//@ pred isComment(f stepFunc) := in(f, stateCommentStarted, stateCommentDouble, stateCommentBlock,
+//@     stateCommentOnceClosed, stateCommentTwiceClosed)
+//@ pred isParam(f stepFunc) := in(f, stateParameterOrAnnotation, stateParameterOrAnnotationAfterFirstSpace,
+//@     stateParameterStart, stateParameterInQuoted, stateParameterInQuotedSlash, stateParameterWoQuoted,
+//@     stateAnnotationSign2, stateAnnotationTextStart, stateAnnotation, stateMultilineAnnotationTextStart,
+//@     stateMultilineAnnotation)
+//@ pred isBodyPending(f stepFunc) := in(f, stateBodyBody, stateRequestBody, stateResponseBody, stateTypeBody)
+//@ pred isAfterParams(f stepFunc) := in(f, stateExpectKeyword, stateBodyBodyOrKeyword, stateRequestBodyOrKeyword,
+//@     stateResponseBodyOrKeyword, stateTypeBodyOrKeyword, stateQueryBodyOrKeyword, stateDescriptionTextBeginStarter,
+//@     stateEnumBody, stateHeaderBody, statePathBody, stateParamsBody, stateResultBody)
+//@ pred isSchemaStart(f stepFunc) := in(f, stateRegex, stateJSchema)
+//@ pred isCommentable(f stepFunc) := in(f, stateRoot, stateExpectKeyword, stateBodyEnded, stateContextClosed,
+//@     stateContextOpenedOnNewline, stateEnumBody, stateEnumBodyEnded, stateHeaderBody, statePathBody, stateParamsBody,
+//@     stateResultBody, stateQueryBodyOrKeyword, stateParameterOrAnnotation, stateParameterOrAnnotationAfterFirstSpace,
+//@     stateRequestBody, stateResponseBody)
+
+// stack shape required by a non-comment step function, looking at the top n entries
+//@ pred baseStackOK(f stepFunc, st stepFuncStack, n int) :=
+//@     ite(isParam(f), n >= 1 && isAfterParams(st[n-1]),
+//@     ite(isBodyPending(f), n >= 1 && isSchemaStart(st[n-1]),
+//@     isPlain(f)))
+//@ pred stackOK(f stepFunc, st stepFuncStack) :=
+//@     ite(isComment(f), len(st) >= 1 && isCommentable(st[len(st)-1]) && baseStackOK(st[len(st)-1], st, len(st)-1),
+//@     ite(f == stateSingleComment, len(st) >= 1 && (isCommentable(st[len(st)-1]) || isAfterParams(st[len(st)-1]))
+//@                                  && baseStackOK(st[len(st)-1], st, len(st)-1),
+//@     baseStackOK(f, st, len(st))))
+
+// ---------------------------------------------------------------------------
+// Lexeme protocol (C12). Ghost state, updated only by foundAt's contract:
+//   gOpen   kind of the lexeme that is open (0 none, 1 Keyword, 2 Parameter, 3 Annotation, 4 Schema, 5 Text, 6 Enum)
+//   gOpenAt index at which it was opened
+//   gFree   first index not yet covered by a completed lexeme
+
+//@ ghost field Scanner.gOpen int
+//@ ghost field Scanner.gOpenAt int
+//@ ghost field Scanner.gFree int
+
+//@ fn evKind(t LexemeEventType) int :=
+//@     ite(in(t, KeywordBegin, KeywordEnd), 1, ite(in(t, ParameterBegin, ParameterEnd), 2,
+//@     ite(in(t, AnnotationBegin, AnnotationEnd), 3, ite(in(t, SchemaBegin, SchemaEnd), 4,
+//@     ite(in(t, TextBegin, TextEnd), 5, ite(in(t, EnumBegin, EnumEnd), 6, 0))))))
+//@ pred evIsBegin(t LexemeEventType) := in(t, KeywordBegin, ParameterBegin, AnnotationBegin, SchemaBegin, TextBegin, EnumBegin)
+//@ pred evIsEnd(t LexemeEventType) := in(t, KeywordEnd, ParameterEnd, AnnotationEnd, SchemaEnd, TextEnd, EnumEnd)
+//@ pred evIsSingle(t LexemeEventType) := in(t, ContextOpen, ContextClose)
+// empty Annotation and Text lexemes (end == begin-1) exist and are legal; no other kind may be empty
+//@ fn slack(k int) int := ite(k == 3 || k == 5, 1, 0)
+
+//@ pred emitOK(s *Scanner, i bytes.Index, t LexemeEventType) :=
+//@     ite(evIsBegin(t), s.gOpen == 0 && s.gFree <= i && i <= s.dataSize,
+//@     ite(evIsEnd(t), s.gOpen == evKind(t) && s.gOpenAt <= i + slack(evKind(t)) && i < s.dataSize,
+//@     evIsSingle(t) && s.gOpen == 0 && s.gFree <= i && i < s.dataSize))
+
+//@ func (*Scanner).foundAt(s, i, t)
+//@   property C12
+//@   requires[C01] s != nil
+//@   requires[C12,C01] emitOK(s, i, t)
+//@   modifies s.finds, s.finds[:]
+//@   ensures arrStable(s.finds.arr, old(s.finds.arr))
+//@   ghost s.gOpen := ite(evIsBegin(t), evKind(t), 0)
+//@   ghost s.gOpenAt := ite(evIsBegin(t), i, old(s.gOpenAt))
+//@   ghost s.gFree := ite(evIsBegin(t), old(s.gFree), i + 1)
+
+//@ pred isKeywordState(f stepFunc) := in(f,
+//@     stateB, stateBa, stateBas, stateBase, stateBaseU, stateBaseUr, stateBo, stateBod, stateD, stateDE, stateDEL,
+//@     stateDELE, stateDELET, stateDe, stateDes, stateDesc, stateDescr, stateDescri, stateDescrip, stateDescript,
+//@     stateDescripti, stateDescriptio, stateE, stateEN, stateENU, stateG, stateGE, stateH, stateHe, stateHea,
+//@     stateHead, stateHeade, stateHeader, stateI, stateIN, stateINC, stateINCL, stateINCLU, stateINCLUD, stateINF,
+//@     stateJ, stateJS, stateJSI, stateJSIG, stateJSIGH, stateM, stateMA, stateMAC, stateMACR, stateMe, stateMet,
+//@     stateMeth, stateMetho, stateO, stateOp, stateOpe, stateOper, stateOpera, stateOperat, stateOperati,
+//@     stateOperatio, stateOperation, stateOperationI, stateP, statePA, statePAS, statePAST, statePAT, statePATC,
+//@     statePO, statePOS, statePU, statePa, statePar, statePara, stateParam, statePat, statePr, statePro, stateProt,
+//@     stateProto, stateProtoc, stateProtoco, stateQ, stateQu, stateQue, stateQuer, stateR, stateRe, stateReq,
+//@     stateRequ, stateReque, stateReques, stateRes, stateResponseKeywordSecond, stateResponseKeywordStarted,
+//@     stateResu, stateResul, stateS, stateSe, stateSer, stateServ, stateServe, stateT, stateTA, stateTa, stateTag,
+//@     stateTi, stateTit, stateTitl, stateTy, stateTyp, stateU, stateUR, stateV, stateVe, stateVer, stateVers,
+//@     stateVersi, stateVersio)
+//@ pred isTextState(f stepFunc) := in(f, stateDescriptionTextBegin, stateDescriptionTextBracketsInner,
+//@     stateDescriptionTextBracketsInnerNewLine, stateDescriptionText, stateDescriptionTextNewline,
+//@     stateRegexFirstChar, stateRegexBody, stateRegexBodyAfterSlash)
+//@ fn openKind(f stepFunc) int :=
+//@     ite(isKeywordState(f), 1,
+//@     ite(in(f, stateParameterInQuoted, stateParameterInQuotedSlash, stateParameterWoQuoted), 2,
+//@     ite(in(f, stateAnnotation, stateMultilineAnnotation), 3,
+//@     ite(f == stateSchemaClosed, 4,
+//@     ite(isTextState(f), 5,
+//@     ite(f == stateEnumBodyClose, 6, 0))))))
+// states reached only after a keyword was emitted (so gFree >= 1 and curIndex-1 cannot wrap)
+//@ pred needsKw(f stepFunc) := isParam(f) || in(f, stateDescriptionTextBeginStarter, stateDescriptionTextBegin,
+//@     stateDescriptionTextBracketsInner, stateDescriptionTextBracketsInnerNewLine, stateDescriptionText,
+//@     stateDescriptionTextNewline)
+// states whose open lexeme already contains at least one byte
+//@ pred needsBodyChar(f stepFunc) := in(f, stateParameterWoQuoted, stateSchemaClosed, stateEnumBodyClose)
+
+// posOK(s, f, i): ghost/cursor relation that holds when non-comment state f is about to be run at index i
+//@ pred posOK(s *Scanner, f stepFunc, i int) :=
+//@     s.gOpen == openKind(f) && 0 <= s.gFree && s.gFree <= i
+//@     && imp(s.gOpen != 0, s.gFree <= s.gOpenAt && s.gOpenAt <= i)
+//@     && imp(needsKw(f), s.gFree >= 1)
+//@     && imp(f == stateAnnotationSign2, s.gFree + 1 <= i)
+//@     && imp(needsBodyChar(f), s.gOpenAt + 1 <= i)
+//@ pred scanOK(s *Scanner, f stepFunc, i int) :=
+//@     ite(isComment(f) || f == stateSingleComment,
+//@         len(s.stepStack) >= 1 && posOK(s, s.stepStack[len(s.stepStack)-1], i),
+//@         posOK(s, f, i))
+//@ pred fileOK(s *Scanner) := s.file != nil && s.dataSize == len(s.data.data) && len(s.file.content.data) == s.dataSize
+//@     && cap(s.file.content.data) >= s.dataSize
+
+//@ pred arrStable(n int, o int) := n == o || fresh(n)
+//@ pred lexOK(l *Lexeme) := l != nil && l.file != nil && l.begin <= l.end + 1 && l.end + 1 <= len(l.file.content.data)
+//@ pred paramsOK(s *Scanner) := forall(j, imp(0 <= j && j < len(s.lastDirectiveParameters), lexOK(s.lastDirectiveParameters[j])))
+
+//@ func (*Scanner).isDirectiveParameterHasTypeOrAnyOrEmpty(s)
+//@   property C01
+//@   requires s != nil && paramsOK(s)
+//@   modifies nothing
+//@ func (*Scanner).isDirectiveParameterHasAnyOrEmpty(s)
+//@   property C01
+//@   requires s != nil && paramsOK(s)
+//@   modifies nothing
+//@ func (*Scanner).isDirectiveParameterHasRegexNotation(s)
+//@   property C01
+//@   requires s != nil && paramsOK(s)
+//@   modifies nothing
+
+//@ functype stepFunc(s, c)
+//@   property C01,C12
+//@   requires s != nil && s.step == self && fileOK(s) && paramsOK(s)
+//@   requires s.curIndex <= s.dataSize
+//@   requires imp(s.curIndex < s.dataSize, c == s.data.data[s.curIndex] && c != 0) && imp(s.curIndex == s.dataSize, c == 0)
+//@   requires stackOK(self, s.stepStack)
+//@   requires scanOK(s, self, s.curIndex)
+//@   modifies s.step, s.stepStack, s.stepStack[:], s.finds, s.finds[:], s.curIndex, s.gOpen, s.gOpenAt, s.gFree
+//@   ensures arrStable(s.finds.arr, old(s.finds.arr)) && arrStable(s.stepStack.arr, old(s.stepStack.arr))
+//@   ensures s.curIndex <= s.dataSize
+//@   ensures imp(result == nil && s.curIndex < s.dataSize, stackOK(s.step, s.stepStack))
+//@   ensures imp(result == nil && s.curIndex < s.dataSize, scanOK(s, s.step, s.curIndex + 1))
+//@   ensures imp(result == nil && s.curIndex == s.dataSize, s.gOpen == 0 || s.gOpenAt <= s.dataSize)
+//@   ensures 0 <= s.gFree && s.gFree >= old(s.gFree)
+
+//@ ghost field jschema.JSchema.gSrcLen int
+//@ ghost field enum.Enum.gSrcLen int
+//@ extern github.com/jsightapi/jsight-schema-core/notations/jschema.FromFile(f, oo)
+//@   attr deterministic nopanic
+//@   ensures result != nil && fresh(result) && result.gSrcLen == len(f.content.data)
+//@ extern (*github.com/jsightapi/jsight-schema-core/notations/jschema.JSchema).Len(js)
+//@   attr deterministic nopanic
+//@   ensures imp(result1 == nil, result0 <= js.gSrcLen)
+//@ extern github.com/jsightapi/jsight-schema-core/rules/enum.FromFile(f)
+//@   attr deterministic nopanic
+//@   ensures result != nil && fresh(result) && result.gSrcLen == len(f.content.data)
+//@ extern (*github.com/jsightapi/jsight-schema-core/rules/enum.Enum).Len(e)
+//@   attr deterministic nopanic
+//@   ensures imp(result1 == nil, result0 <= e.gSrcLen)
+//@ extern github.com/jsightapi/jsight-schema-core/kit.ConvertError(f, err)
+//@   attr pure deterministic nopanic
+//@   ensures result != nil
+//@ extern (github.com/jsightapi/jsight-schema-core/kit.Error).Message(e)
+//@   attr pure deterministic nopanic
+//@ extern (github.com/jsightapi/jsight-schema-core/kit.Error).Index(e)
+//@   attr pure deterministic nopanic
+//@ extern (github.com/jsightapi/jsight-schema-core/bytes.Bytes).SubToEndOfLine(b, start)
+//@   attr pure deterministic nopanic
+//@ extern github.com/jsightapi/jsight-api-core/directive.IsStartWithDirective(b)
+//@   attr pure deterministic nopanic
+//@ extern (github.com/jsightapi/jsight-schema-core/bytes.Bytes).Unquote(b)
+//@   attr pure deterministic nopanic
+//@ extern (github.com/jsightapi/jsight-schema-core/bytes.Bytes).IsUserTypeName(b)
+//@   attr pure deterministic nopanic
+//@ extern bytes.Equal
+//@   attr pure deterministic nopanic
